@@ -264,3 +264,46 @@ Definition qv_shape_code (sh : qv_shape) : list nat :=
   | QVRead g => [0; b g]
   | QVDrain a i g rr f => [1; b a; b i; b g; match rr with RNone => 0 | RLooked => 1 | RPopped => 2 end; b f]
   end.
+
+(* ------------------------------------------------------------------------------------------
+   How the two backends IMPLEMENT the read-only classified methods (generated table,
+   gen/ReadImpl_gen.v, harness/translate/readimpl.py): the effects of the method body followed
+   through self-calls along the class hierarchy, helper objects and module helpers. *)
+Inductive effect : Type :=
+  | ECall (a : api)      (* calls this API method (own component through self, others through app) *)
+  | EWriteContainer      (* mutates a stored container in place: store / del / in-place operator /
+                            mutating method on self.<attr> or on a local alias of it            *)
+  | EWriteSql.           (* executes INSERT / UPDATE / DELETE / REPLACE / DDL                     *)
+
+Record impl : Type := mkImpl {
+  i_api     : api;
+  i_backend : nat;          (* 0 = in-memory, 1 = SQLite *)
+  i_name    : string;
+  i_effects : list effect
+}.
+
+Definition effect_observes (e : effect) : bool :=
+  match e with ECall a => read_only a | EWriteContainer | EWriteSql => false end.
+
+(* a method classified read-only has observing effects only (other rows are not constrained) *)
+Definition impl_ok (i : impl) : bool :=
+  negb (read_only (i_api i)) || forallb effect_observes (i_effects i).
+
+Definition impls_ok (l : list impl) : bool := forallb impl_ok l.
+
+Scheme Equality for api.
+
+(* read-only methods that are implemented by the backend classes (the others are app / task /
+   invocation-object level and are covered by the read-out only) *)
+Definition backend_read (a : api) : bool :=
+  match a with
+  | AAppTasks | AAppGetTask | ACallData | AMeta => false
+  | _ => read_only a
+  end.
+
+Definition has_impl (l : list impl) (a : api) (backend : nat) : bool :=
+  existsb (fun i => api_beq (i_api i) a && Nat.eqb (i_backend i) backend) l.
+
+(* every backend-implemented read method a GET route can reach was analysed for both backends *)
+Definition impl_coverage (rs : list route) (l : list impl) : bool :=
+  forallb (fun r => forallb (fun a => negb (backend_read a) || (has_impl l a 0 && has_impl l a 1)) (r_reach r)) rs.
